@@ -142,6 +142,7 @@ fn gen_case(rng: &mut Rng) -> Case {
         }
     }
     doc.extend(close.as_bytes());
+    wl::bomify(rng, &mut doc);
     // attribute names that really occur in the generated tags (for lookups / removals that hit)
     let mut present: Vec<String> = vec![];
     {
